@@ -32,7 +32,11 @@ CONSTANTS
   MaxCrash,   \* bound on restarts
   MaxFlush,   \* bound on manual FLUSHes
   MaxCompact, \* bound on compaction rounds
-  Fix         \* set of repair names in force
+  Fix,        \* set of repair names in force
+  FlushCrash, \* subset of FlushStages \ {"none"}: flush-pipeline crash points explored
+  CompactCrash, \* subset of CompactStages \ {"none"}
+  QuiescentCrash, \* BOOLEAN: crash between two commands explored
+  CleanRestarts   \* BOOLEAN: graceful shutdown + restart explored
 
 AllFixes == {"prune-by-content", "replay-skips-published", "live-from-index",
              "reads-use-index", "alloc-past-wal", "replay-sorted-by-id", "alloc-fresh-dirs"}
@@ -69,10 +73,12 @@ VARIABLES
   ncrash, nflush, ncompact,
   \* ghosts
   applied,   \* Seq(Ev): every STORE applied, in order
-  fired      \* names of as-built defects that made a difference so far
+  fired,     \* names of as-built defects that made a difference so far
+  seenIds    \* segment ids that named a directory at some time in this process lifetime
+             \* (the per-segment caches of a process are keyed by that label)
 
 vars == <<nstored, mem, wal, walCur, walCnt, walLinked, dirs, idx, live, nextL0,
-          ncrash, nflush, ncompact, applied, fired>>
+          ncrash, nflush, ncompact, applied, fired, seenIds>>
 
 -----------------------------------------------------------------------------
 \* helpers
@@ -111,7 +117,7 @@ Init ==
   /\ wal = (0 :> <<>>) /\ walCur = 0 /\ walCnt = 0 /\ walLinked = TRUE
   /\ dirs = <<>> /\ idx = <<>> /\ live = {} /\ nextL0 = 0
   /\ ncrash = 0 /\ nflush = 0 /\ ncompact = 0
-  /\ applied = <<>> /\ fired = {}
+  /\ applied = <<>> /\ fired = {} /\ seenIds = {}
 
 \* ---- WAL writer task: append one entry, rotate when entries_written reaches Cap
 WalAppend(w, cur, cnt, linked, e) ==
@@ -191,6 +197,7 @@ Restarted(r, extraFired) ==
   /\ mem' = s.mem /\ live' = s.live /\ nextL0' = s.nextL0
   /\ wal' = s.wal /\ walCur' = s.cur /\ walCnt' = s.cnt /\ walLinked' = TRUE
   /\ fired' = fired \cup extraFired \cup s.firedNow
+  /\ seenIds' = DOMAIN r.dirs
   /\ ncrash' = ncrash + 1
 
 \* ---- STORE: WAL append (separate task; the replay harness drains it before the next
@@ -214,13 +221,14 @@ Store(t, c, crash, part) ==
                            /\ dirs' = r.dirs /\ idx' = r.idx /\ live' = r.live /\ wal' = r.wal
                            /\ walCur' = wa.cur /\ walCnt' = wa.cnt
                            /\ walLinked' = r.linked /\ fired' = fired \cup r.firedNow
+                           /\ seenIds' = seenIds \cup DOMAIN r.dirs
                            /\ UNCHANGED ncrash
                       ELSE /\ ncrash < MaxCrash
                            /\ Restarted(r, r.firedNow)
            ELSE /\ crash = "none" /\ part = {}
                 /\ mem' = m1 /\ wal' = wa.wal /\ walLinked' = wa.linked
                 /\ walCur' = wa.cur /\ walCnt' = wa.cnt
-                /\ UNCHANGED <<nextL0, dirs, idx, live, fired, ncrash>>
+                /\ UNCHANGED <<nextL0, dirs, idx, live, fired, ncrash, seenIds>>
   /\ crash # "partial" => part = {}
   /\ UNCHANGED <<nflush, ncompact>>
 
@@ -239,6 +247,7 @@ ManualFlush(crash, part) ==
         THEN /\ mem' = <<>> /\ nextL0' = nextL0 + 1
              /\ dirs' = r.dirs /\ idx' = r.idx /\ live' = r.live /\ wal' = r.wal
              /\ walLinked' = r.linked /\ fired' = fired \cup r.firedNow
+             /\ seenIds' = seenIds \cup DOMAIN r.dirs
              /\ UNCHANGED <<walCur, walCnt, ncrash>>
         ELSE /\ ncrash < MaxCrash
              /\ Restarted(r, r.firedNow)
@@ -272,7 +281,7 @@ Batches(ix) == {[lvl |-> p.lvl, ins |-> p.ins,
 \* on disk, plus one" for each batch in turn.
 OutId(st, lvl) ==
   IF "alloc-fresh-dirs" \in Fix
-  THEN MaxOr({s \in DOMAIN st.idx \cup DOMAIN st.dirs : Level(s) = lvl}, lvl * L1Base - 1) + 1
+  THEN MaxOr({s \in DOMAIN st.idx \cup DOMAIN st.dirs \cup st.seen : Level(s) = lvl}, lvl * L1Base - 1) + 1
   ELSE MaxOr({s \in DOMAIN st.idx : Level(s) = lvl}, lvl * L1Base - 1) + 1   \* as built: index labels only
 
 \* hand-over of one batch; mode "out": only the output directory is written;
@@ -288,12 +297,13 @@ CompactBatch(b, mode, st) ==
       ix1     == [s \in DOMAIN st.idx |-> IF s \in SeqSet(b.ins) THEN st.idx[s] \ b.ts ELSE st.idx[s]]
       drained == {s \in SeqSet(b.ins) : s \in DOMAIN ix1 /\ ix1[s] = {}}
       ix2     == Restrict(ix1, DOMAIN ix1 \ drained) @@ (outId :> b.ts)
-      reuse   == IF outId \in DOMAIN st.dirs THEN {"output-id-reuse"} ELSE {}
+      reuse   == IF outId \in DOMAIN st.dirs \cup st.seen THEN {"output-id-reuse"} ELSE {}
   IN IF mode = "out"
      THEN [dirs |-> d1, idx |-> st.idx, live |-> st.live, drained |-> st.drained,
-           firedNow |-> st.firedNow \cup reuse]
+           firedNow |-> st.firedNow \cup reuse, seen |-> st.seen \cup {outId}]
      ELSE [dirs |-> d1, idx |-> ix2, live |-> (st.live \ drained) \cup {outId},
-           drained |-> st.drained \cup drained, firedNow |-> st.firedNow \cup reuse]
+           drained |-> st.drained \cup drained, firedNow |-> st.firedNow \cup reuse,
+           seen |-> st.seen \cup {outId}]
 
 RECURSIVE RunBatches(_, _)
 RunBatches(bs, st) ==
@@ -312,7 +322,8 @@ Compact(crash) ==
   /\ Batches(EffIdx) # {}
   /\ ncompact' = ncompact + 1
   /\ LET bs  == Batches(EffIdx)
-         st0 == [dirs |-> dirs, idx |-> EffIdx, live |-> live, drained |-> {}, firedNow |-> {}]
+         st0 == [dirs |-> dirs, idx |-> EffIdx, live |-> live, drained |-> {}, firedNow |-> {},
+                 seen |-> seenIds]
          b1  == CHOOSE x \in bs : \A y \in bs : Head(x.ins) <= Head(y.ins) /\
                                    (Head(x.ins) = Head(y.ins) => Len(x.ins) <= Len(y.ins))
      IN CASE crash = "none" ->
@@ -322,6 +333,7 @@ Compact(crash) ==
                /\ fired' = fired \cup r.firedNow \cup
                     (IF "reads-use-index" \notin Fix /\ StillReadable(d2, r.idx, r.live)
                      THEN {"retired-uid-still-readable"} ELSE {})
+               /\ seenIds' = r.seen
                /\ UNCHANGED <<mem, wal, walCur, walCnt, walLinked, nextL0, ncrash>>
           [] crash = "out" ->
                /\ ncrash < MaxCrash /\ Cardinality(bs) = 1   \* batch order is hash-map order in the code
@@ -342,11 +354,13 @@ Compact(crash) ==
 \* Crash at quiescence (between two commands), and graceful shutdown (= manual flush of the
 \* shard, WAL close), each followed by start-up.
 CrashRestart ==
+  /\ QuiescentCrash
   /\ ncrash < MaxCrash
   /\ Restarted([dirs |-> dirs, idx |-> idx, wal |-> wal], {})
   /\ UNCHANGED <<nstored, nflush, ncompact, applied>>
 
 CleanRestart ==
+  /\ CleanRestarts
   /\ ncrash < MaxCrash
   /\ LET j == [seg |-> nextL0, evs |-> mem]
          r == FlushTo("none", {}, j, [dirs |-> dirs, idx |-> idx, live |-> live, wal |-> wal,
@@ -355,9 +369,9 @@ CleanRestart ==
   /\ UNCHANGED <<nstored, nflush, ncompact, applied>>
 
 Next ==
-  \/ \E t \in Types, c \in Ctxs, cr \in FlushStages, p \in SUBSET Types : Store(t, c, cr, p)
-  \/ \E cr \in FlushStages, p \in SUBSET Types : ManualFlush(cr, p)
-  \/ \E cr \in CompactStages : Compact(cr)
+  \/ \E t \in Types, c \in Ctxs, cr \in FlushCrash \cup {"none"}, p \in SUBSET Types : Store(t, c, cr, p)
+  \/ \E cr \in FlushCrash \cup {"none"}, p \in SUBSET Types : ManualFlush(cr, p)
+  \/ \E cr \in CompactCrash \cup {"none"} : Compact(cr)
   \/ CrashRestart
   \/ CleanRestart
 
